@@ -51,8 +51,45 @@ def obligations(ctx, module, runs):
     ctx.cov["samples"] = done
 
 
+def tlaps(ctx, module, proof, flip):
+    """Check the TLAPS proof spec/extra/<proof>.tla (which EXTENDS <module>), and that it fails once the assumption
+    `flip` = (text, replacement) is turned into the accounting of the pinned tree."""
+    import re
+    d = ctx.path("tlaps")
+    shutil.rmtree(d, ignore_errors=True)
+    os.makedirs(d)
+    for m in (module, proof):
+        shutil.copy(os.path.join(vlib.SPEC, "extra", m + ".tla"), d)
+    out = []
+    for name, expect_ok in ((proof, True), ("AsFound", False)):
+        if name == "AsFound":
+            src = open(os.path.join(d, proof + ".tla")).read()
+            assert flip[0] in src
+            open(os.path.join(d, "AsFound.tla"), "w").write(src.replace(flip[0], flip[1]).replace("MODULE " + proof, "MODULE AsFound"))
+        t0 = time.time()
+        try:
+            p = subprocess.run(["tlapm", "--threads", "4", name + ".tla"], cwd=d, stdout=subprocess.PIPE, stderr=subprocess.STDOUT, text=True, timeout=900)
+        except subprocess.TimeoutExpired:
+            raise vlib.ToolError("tlapm timed out on " + name)
+        m = re.search(r"All (\d+) obligations proved", p.stdout)
+        f = re.search(r"(\d+)/(\d+) obligations failed", p.stdout)
+        if not m and not f:
+            raise vlib.ToolError("tlapm gave no verdict on %s: %s" % (name, p.stdout[-1200:]))
+        ok = bool(m)
+        if ok != expect_ok:
+            ctx.violation({"rule": "tlaps", "what": name}, {"module": name}, "%s: tlapm says %s" % (name, "proved" if ok else "unproved obligations"))
+        out.append({"obligation": "TLAPS proof %s (%s)" % (name, "all obligations proved" if ok else "%s of %s obligations fail, as they must" % (f.group(1), f.group(2))),
+                    "args": "tlapm " + name + ".tla", "outcome": "proved" if ok else "refuted", "seconds": round(time.time() - t0, 1)})
+        vlib.log("tlapm: %s: %s (%.1fs)" % (name, out[-1]["outcome"], time.time() - t0))
+    ctx.cov["samples"] = ctx.cov["samples"] + out
+    ctx.cov["evaluations"] += len(out)
+    ctx.cov["distinct_nontrivial"] += len(out)
+    ctx.cov["tlaps"] = [o["obligation"] for o in out]
+
+
 def run(ctx):
     obligations(ctx, "DepthBudget", RUNS)
+    tlaps(ctx, "DepthBudget", "DepthBudgetProof", ("ASSUME Refunded == Refund = TRUE", "ASSUME Refunded == Refund = FALSE"))
     ctx.cov["rule"] = "proof obligations discharged by Apalache (symbolic, all limits 1..255, unbounded nesting)"
 
 
